@@ -106,6 +106,17 @@ def ghost_specs():
             res = fld if res is None else z3.If(j == jj, fld, res)
         return VBV(res)
     S["xs"] = GhostSpec("xs", xs)
+    # ghost delays of the DM under consideration (result of Header.get_dmdelays): DLY[c], their maximum MAXD
+    DLY = z3.Const("DLY", z3.ArraySort(INT, INT))
+    MAXD, DWIT = z3.Int("MAXD"), z3.Int("DWIT")
+
+    def dly(e, st, a):
+        if a:
+            return VInt(z3.Select(DLY, smt.som(e.to_int(a[0]))))
+        return VOpaqueArr(DLY)
+    S["DLY"] = GhostSpec("DLY", dly)
+    S["MAXD"] = GhostSpec("MAXD", lambda e, st, a: VInt(MAXD))
+    S["DWIT"] = GhostSpec("DWIT", lambda e, st, a: VInt(DWIT))
     S["dec16"] = GhostSpec("dec16", lambda e, st, a: VReal(DEC16(a[0].t, a[1].t)))
     S["dec32"] = GhostSpec("dec32", lambda e, st, a: VReal(DEC32(a[0].t, a[1].t, a[2].t, a[3].t)))
     return S
@@ -379,3 +390,15 @@ def chunk_append(eng, st, args, kwargs, line):
                                              z3.Select(st.heap[a.obj], eng.arr_index_term(a, j - n))))
     f["n"] = VInt(smt.som(n + a.n))
     return val(st, NONE)
+
+
+# ------------------------------------------------------------------ ghost sample array of the stream (consumers)
+XS_OBJ = "XS"
+
+
+def xs_object(eng, st):
+    """XS[i]: unpacked sample i of the stream as a real number (flat, time-major: sample t, channel c at t*nchans+c)."""
+    if XS_OBJ not in st.heap:
+        st.heap[XS_OBJ] = z3.Const("XS", z3.ArraySort(INT, REAL))
+        st.hmeta[XS_OBJ] = {"kind": "real", "dtype": None}
+    return XS_OBJ
